@@ -1,7 +1,7 @@
 (* C04 - proofs: the token stream of Model/DrawScreen.v, interpreted by Model/TermRef.v, paints
    the canvas (Model/PaintSpec.v). *)
 From Coq Require Import ZArith List Bool Lia ZifyBool.
-From Urwid Require Import PyBase TermRef DrawScreen PaintSpec TermRefFacts.
+From Urwid Require Import PyBase attrspec_escape_gen TermRef DrawScreen PaintSpec TermRefFacts.
 Import ListNotations.
 Open Scope Z_scope.
 
@@ -72,8 +72,17 @@ Definition bg_part (bbb : bool) (a : aspec) : list Z :=
     (if 7 <? s_bgn a then (if bbb then [5; s_bgn a - 8 + 40] else [s_bgn a - 8 + 100]) else [s_bgn a + 40])
   else [49].
 
+(* the function translated from the source is the concatenation of these three parts *)
 Lemma spec_to_sgr_parts bib bbb a : spec_to_sgr bib bbb a = 0 :: fg_part bib a ++ st_part a ++ bg_part bbb a.
-Proof. reflexivity. Qed.
+Proof.
+  unfold spec_to_sgr, attrspec_escape_gen.attrspec_to_sgr_gen.
+  apply (f_equal (cons 0)). apply f_equal2; [|apply f_equal2].
+  - unfold fg_part. destruct (s_fgk a =? 3); [reflexivity|]. destruct (s_fgk a =? 2); [reflexivity|].
+    destruct (s_fgk a =? 1); [|reflexivity]. destruct (7 <? s_fgn a); [destruct bib|]; reflexivity.
+  - unfold st_part. destruct (s_bold a), (s_ital a), (s_under a), (s_blink a), (s_stand a), (s_strike a); reflexivity.
+  - unfold bg_part. destruct (s_bgk a =? 3); [reflexivity|]. destruct (s_bgk a =? 2); [reflexivity|].
+    destruct (s_bgk a =? 1); [|reflexivity]. destruct (7 <? s_bgn a); [destruct bbb|]; reflexivity.
+Qed.
 
 Lemma fg_part_ok bib s rest v : (s_fgk s = 1 -> 0 <= s_fgn s <= 15) ->
   apply_sgr (fg_part bib s ++ rest) v =
